@@ -235,6 +235,12 @@ def check(recipe, mode):
     if recipe.get('fresh') and nside <= 64:
         # a short-lived landscape (a loop over resolutions, a pytree rebuild): dropped after this case, so that whatever
         # the library remembers about it must not leak into the next landscape allocated at the same address
+        other = 2 * nside if nside < 64 else nside // 2
+        tmp = HealpixLandscape(other, 'I', ldt)
+        got_tmp = int(np.asarray(tmp.world2index(jnp.asarray([1.0], dtype=fdt), jnp.asarray([1.0], dtype=fdt)))[0])
+        if got_tmp != int(hp.ang2pix(other, float(np.asarray(1.0, dtype=fdt)), float(np.asarray(1.0, dtype=fdt)))):
+            raise Violation('world2index-value', f'nside {other}: (theta, phi) = (1, 1) -> {got_tmp}')
+        del tmp
         land = HealpixLandscape(nside, 'I', ldt)
     else:
         if key not in _HP_CACHE:
